@@ -276,6 +276,15 @@ def run(rep, tier):
     rep.floor = 50000
 
 
+def san_shards(tier):
+    """the same workloads under Miri (UB in slicing / rust_decimal parsing), ASan (stack and heap) and valgrind memcheck"""
+    out = []
+    out.append(("miri", [("enum", i, 16, 2, "miri") for i in range(16)] + [("soup", i, 0, 12, "miri") for i in range(16)]))
+    out.append(("asan", [("ladder", 0, 0, (fam, [10, 100, 1000]), "asan") for fam in FAMILIES] + [("soup", i, 0, 400, "asan") for i in range(8)]))
+    out.append(("valgrind", [("soup", i, 0, 300, "valgrind") for i in range(16)]))
+    return out
+
+
 def replay(path):
     d = json.load(open(path))
     r = d["replay"]
